@@ -27,4 +27,7 @@ GenSpec == GenInit /\ [][GenNext]_genvars
 CoverNext == Next /\ hist' = Append(hist, last') /\ UNCHANGED done
 CoverSpec == GenInit /\ [][CoverNext]_genvars
 DumpEvery == (hist # <<>>) => Dump
+\* edge cover: printed for every generated transition (self-loops and transitions into known states too):
+\* the BFS-shortest path to the source state followed by the transition
+EdgeDump == PrintT(ToJson(<<"BEH", [hist |-> hist', msgs |-> msgs']>>))
 =============================================================================
